@@ -37,4 +37,18 @@ theorem pure1D_no_hidden_state :
     Gen.Twooffive.fact_globalWrites = [] ∧ Gen.Twooffive.fact_aliasAssign = [] ∧ Gen.Twooffive.fact_fixedArrays = ["local:_:twooffive.pattern", "local:a:twooffive.pattern", "local:b:twooffive.pattern"] ∧ Gen.Twooffive.fact_receiverWrites = [] := by
   decide
 
+/-- The library routines these packages call are exactly the ones the models were written against (DESIGN §7, item 5):
+    a body that starts to use another routine — `math/bits.Div` instead of `big.Int.DivMod`, `hash/crc32`,
+    `bytes.TrimPrefix`, `strings.HasPrefix` — is outside what the model mirrors, whether or not an input shows it. -/
+theorem pure1D_external_calls :
+    Gen.Root.fact_externalCalls = ["(image.Image).At", "(image.Image).Bounds", "(image.Image).ColorModel", "errors.New", "fmt.Errorf", "image.Rect", "math.Min"] ∧
+    Gen.Utils.fact_externalCalls = ["(*sync.Mutex).Lock", "(*sync.Mutex).Unlock", "image.Rect"] ∧
+    Gen.Code128.fact_externalCalls = ["fmt.Errorf", "strings.ContainsRune", "strings.IndexRune", "unicode/utf8.RuneCountInString"] ∧
+    Gen.Code39.fact_externalCalls = ["errors.New", "strings.ContainsRune"] ∧
+    Gen.Code93.fact_externalCalls = ["errors.New", "strings.ContainsRune"] ∧
+    Gen.Codabar.fact_externalCalls = ["(*regexp.Regexp).ReplaceAllString", "fmt.Errorf", "regexp.Compile"] ∧
+    Gen.Ean.fact_externalCalls = ["errors.New"] ∧
+    Gen.Twooffive.fact_externalCalls = ["errors.New", "fmt.Errorf"] := by
+  decide
+
 end BV.Props.Pure1D
